@@ -155,3 +155,69 @@ def recurrences(text, goals, subs=None, settings=None):
         res["systems"].append(entry)
     _reset_settings()
     return res
+
+
+def full_chain(text, goals, subs=None, nvals=10):
+    """everything the per-instance for-all-n chain of C01 needs: normalised program + types, the recurrence system of
+    every goal (rows, matrix, initial vector at the parameter point) and the solver's closed form with its term shape"""
+    from .solve import term_shape, _as_qd, _radicands, _rat
+    from .analyze import eval_closed_form, _max_case
+    res = recurrences(text, goals, subs)
+    if not res.get("accepted"):
+        return res
+    _reset_settings()
+    subs = subs or {}
+    try:
+        from inputparser import Parser
+        from program import normalize_program
+        from recurrences import RecBuilder
+        from recurrences.solver import RecurrenceSolver
+        from utils import unpack_piecewise
+        import sympy
+        program = normalize_program(Parser().parse_string(text))
+        rb = RecBuilder(program)
+        for mono, entry in zip(goals, res["systems"]):
+            if not entry.get("ok"):
+                continue
+            try:
+                m = mono_expr(mono)
+                recs = rb.get_recurrences(m)
+                solver = RecurrenceSolver(recs)
+                sol = solver.get(sympy.sympify(m))
+                entry["closed"] = {"exact": bool(solver.is_exact), "max_case": _max_case(sol),
+                                   "index": [str(x) for x in recs.monomials].index(str(sympy.sympify(m))),
+                                   "values": [eval_closed_form(sol, n, subs) for n in range(nvals + 1)],
+                                   "str": str(sol)[:600]}
+                gen = unpack_piecewise(sol)
+                gen = gen.xreplace({s: _rat(subs[s.name]) for s in gen.free_symbols if s.name in subs})
+                try:
+                    shape = term_shape(gen)
+                    bases = {}
+                    for c_, dg, b_ in shape:
+                        bases[str(b_)] = max(bases.get(str(b_), 0), dg + 1)
+                    entry["closed"]["degs"] = sorted(bases.values())
+                    rads = set()
+                    for c_, _, b_ in shape:
+                        rads |= _radicands(c_) | _radicands(b_)
+                    if all(c_.is_Rational and b_.is_Rational for c_, _, b_ in shape):
+                        entry["closed"]["terms"] = [{"coef": f"{c_.p}/{c_.q}", "deg": dg, "base": f"{b_.p}/{b_.q}"}
+                                                    for c_, dg, b_ in shape]
+                    elif len(rads) == 1:
+                        D = next(iter(rads))
+                        ts = []
+                        for c_, dg, b_ in shape:
+                            cq, bq = _as_qd(c_, D), _as_qd(b_, D)
+                            if cq is None or bq is None:
+                                ts = None
+                                break
+                            ts.append({"coef": list(cq), "deg": dg, "base": list(bq)})
+                        if ts is not None:
+                            entry["closed"]["terms_qd"] = ts
+                            entry["closed"]["D"] = str(D)
+                except Exception as ex:  # noqa
+                    entry["closed"]["shape_error"] = str(ex)[:200]
+            except Exception as e:  # noqa
+                entry["closed"] = {"error": _err(e, "solve")}
+    finally:
+        _reset_settings()
+    return res
